@@ -29,7 +29,7 @@ def check_one(hyps, goal, background, timeout_ms=20000, want_model=False):
     return verdict, model, time.time() - t0, why
 
 
-def canary(hyps, background, timeout_ms=5000):
+def canary(hyps, background, timeout_ms=1500):
     """`False` must not follow from the hypotheses (vacuity / contradictory axioms)."""
     s = z3.Solver()
     s.set('timeout', timeout_ms)
